@@ -267,11 +267,11 @@ def gen_wm_hlle_flat(rng, dmax):
 
 def gen_wm_hlle_oracle(rng):
     # d = 1: 3 Gram-Schmidt columns, cheap enough to run in exact arithmetic on the oracle eigenvectors
-    n = rng.choice([5, 6])
+    n = 5
     dim = rng.choice([2, 3])
-    pts = gen_points(rng, n, dim, 5)
+    pts = gen_points(rng, n, dim, 4)
     n = len(pts)
-    K = kernel_table(pts, rng.choice(["linear", "poly2"]))
+    K = kernel_table(pts, "linear")
     k = 4
     return {"kind": "WM", "meth": "hlle", "n": n, "d": 1, "shift": "0", "tshift": "0",
             "nbrs": knn_lists(K, k), "kern": K, "gen": "hlle-oracle-d1"}
@@ -306,7 +306,7 @@ def gen_emb(rng, meth, thorough):
         d = rng.choice([1, 2, 3])
         X, pts = flat_data(rng, n, d, 6 if d > 1 else 15)
     else:
-        X, pts = None, gen_points(rng, n, dim, 4 if meth == "lle" else 5)
+        X, pts = None, gen_points(rng, n, dim, (2 if kind == "poly2" else 4) if meth == "lle" else 5)
         d = rng.randint(1, min(4, n - 2, dim if (meth == "ltsa" and kind == "linear") else 4))
     n = len(pts)
     if meth == "lle" and rng.random() < 0.7:
@@ -1048,7 +1048,7 @@ def build_cases(ctx, rng, budget, thorough):
     return cases
 
 
-QUICK = {"lle": 30, "ltsa": 20, "hlle_flat": 16, "hlle_oracle": 2, "malformed": 4, "emb": 8, "f7": 1, "small_k": 2}
+QUICK = {"lle": 30, "ltsa": 20, "hlle_flat": 16, "hlle_oracle": 1, "malformed": 4, "emb": 8, "f7": 1, "small_k": 2}
 THOROUGH = {"lle": 240, "ltsa": 180, "hlle_flat": 120, "hlle_oracle": 12, "malformed": 24, "emb": 60, "f7": 2, "small_k": 12}
 SEARCH = {"lle": 120, "ltsa": 80, "hlle_flat": 60, "hlle_oracle": 10, "malformed": 0, "emb": 40, "f7": 0, "small_k": 4}
 
